@@ -16,7 +16,8 @@ PROPERTY = "C17"
 def gen_desc(verif_seed: int, i: int, tier: str = "quick") -> dict:
     rs = gen.run_seed(verif_seed, PROPERTY, i)
     rng = random.Random(rs)
-    udesc = gen_universe(rng, n_collections=rng.choice([1, 2, 2]), p_examples=rng.choice([0.4, 0.7, 0.9]), p_header_param=0.7, links=False)
+    udesc = gen_universe(rng, n_collections=rng.choice([1, 2, 2]), p_examples=rng.choice([0.4, 0.7, 0.9]), p_header_param=0.7, links=False,
+                         example_variants=True)
     cfg = {
         "entry": rng.choice(["engine", "cli"]),
         "phases": ["examples"],
@@ -58,7 +59,9 @@ def budget(tier: str) -> dict:
 RULE_TEXT = (
     "one case = one simulated examples-phase run over a universe with examples in seeded placements (parameter-level example / "
     "examples with 1-3 entries on query, header and path parameters, schema-level example on a parameter, media-type example / "
-    "examples with 1-2 bodies, property-level example on an inline body schema; several parameters with different numbers of "
+    "examples with 1-2 bodies, property-level example on an inline body schema, also one per anyOf/oneOf branch; examples behind "
+    "$ref to components/examples; one externalValue fetched from the simulated peer; JSON-distinct twins such as 1 and 1.0; the same "
+    "placements written as Swagger 2.0 x-example / x-examples; several parameters with different numbers of "
     "examples together with body examples; required parameters without examples); every reference example must arrive verbatim "
     "at the peer in >= 1 examples-phase request of its operation (or an error for that operation must be delivered), such requests "
     "must carry all required parameters, operations without examples send nothing and are delivered as skipped; non-trivial = >= 2 "
@@ -67,14 +70,28 @@ RULE_TEXT = (
 ASSUMPTIONS = [
     "secondary property: no schedule or fault dimension; the simulator contributes the wire-level observation point and swarm-varied placements",
     "examples are schema-valid values of the universe's plain types; decoding uses the trivial decoder for form/simple styles",
-    "anyOf/oneOf/allOf branch examples and OpenAPI 2.0 x- forms are not in the repertoire",
+    "allOf-composed examples and examples found in responses are not in the repertoire; values are compared with JSON (type-strict) equality",
 ]
-EXPECTED_PROBES = ["param_examples", "body_examples", "property_examples", "ops_without_examples", "multi_example_params_with_body"]
+EXPECTED_PROBES = ["param_examples", "body_examples", "property_examples", "ops_without_examples", "multi_example_params_with_body",
+                   "external_examples", "twins", "ref_examples", "branch_examples", "swagger2"]
+
+
+def strict_eq(a, b) -> bool:
+    """JSON equality: 1, 1.0 and true are three different values (Python's == says they are equal)."""
+    if isinstance(a, bool) or isinstance(b, bool):
+        return isinstance(a, bool) and isinstance(b, bool) and a == b
+    if isinstance(a, (int, float)) and isinstance(b, (int, float)):
+        return type(a) is type(b) and a == b
+    if isinstance(a, dict) and isinstance(b, dict):
+        return a.keys() == b.keys() and all(strict_eq(a[k], b[k]) for k in a)
+    if isinstance(a, list) and isinstance(b, list):
+        return len(a) == len(b) and all(strict_eq(x, y) for x, y in zip(a, b))
+    return type(a) is type(b) and a == b
 
 
 def fired_faults(desc: dict, res: dict) -> dict:
     st = res.get("stats") or {}
-    return {k: st[k] for k in ("param_examples", "body_examples", "property_examples", "ops_without_examples", "multi_example_params_with_body") if st.get(k)}
+    return {k: st[k] for k in EXPECTED_PROBES if st.get(k)}
 
 
 def nontrivial(desc: dict, res: dict) -> bool:
@@ -107,7 +124,11 @@ class C17Profile(Profile):
             if r.phase == "examples" and r.op is not None:
                 by_op.setdefault(r.op, []).append(r)
         st = {"param_examples": 0, "body_examples": 0, "property_examples": 0, "ops_without_examples": 0, "reference_examples": 0,
-              "examples_requests": sum(len(x) for x in by_op.values()), "multi_example_params_with_body": 0}
+              "examples_requests": sum(len(x) for x in by_op.values()), "multi_example_params_with_body": 0, "external_examples": 0,
+              "twins": sum(1 for c in u.desc["collections"] for x in c.get("examples") or [] if x.get("twin")),
+              "ref_examples": sum(1 for c in u.desc["collections"] for x in c.get("examples") or [] if x.get("ref")),
+              "branch_examples": sum(1 for c in u.desc["collections"] for x in c.get("examples") or [] if x.get("branch")),
+              "swagger2": int(u.desc.get("spec") == "2.0")}
         ctx.extra["c17_stats"] = st
         if ctx.loop_exception is not None:
             v("H0", f"run aborted: {type(ctx.loop_exception).__name__}: {str(ctx.loop_exception)[:200]}", what="aborted")
@@ -136,7 +157,8 @@ class C17Profile(Profile):
                 continue  # reported as an error for that operation
             decoded = []
             for r in reqs:
-                d = {"query": {}, "header": {k.lower(): val for k, val in r.request.headers}, "path": {}, "body": None}
+                d = {"query": {}, "header": {k.lower(): val for k, val in r.request.headers}, "path": {}, "body": None,
+                     "raw": r.request.body or b""}
                 for k, val in r.request.query:
                     d["query"].setdefault(k, []).append(val)
                 from ..linkref import path_args_of
@@ -162,10 +184,17 @@ class C17Profile(Profile):
                     ok = any(d["path"].get(name) == sval for d in decoded)
                 elif loc == "body":
                     st["body_examples"] += 1
-                    ok = any(d["body"] == val for d in decoded)
+                    ok = any(strict_eq(d["body"], val) for d in decoded)
+                elif loc == "body_raw":
+                    # externalValue: only judged when the external document was actually delivered to schemathesis
+                    fetched = any(r.request.url == x["external"] and r.outcome == "response" and r.response is not None and r.response.status == 200 for r in ctx.netlog)
+                    if not fetched:
+                        continue
+                    st["external_examples"] += 1
+                    ok = any(d["raw"] == val.encode() or (d["body"] is not None and strict_eq(d["body"], json.loads(val))) for d in decoded)
                 else:
                     st["property_examples"] += 1
-                    ok = any(isinstance(d["body"], dict) and d["body"].get(name) == val for d in decoded)
+                    ok = any(isinstance(d["body"], dict) and name in d["body"] and strict_eq(d["body"][name], val) for d in decoded)
                 if not ok:
                     v("R1", f"{key}: example {loc}{'.' + name if name else ''} = {val!r} was never sent in the examples phase "
                             f"({len(reqs)} request(s): {[r.request.url for r in reqs][:3]})", what="example_not_sent", location=loc,
